@@ -76,6 +76,8 @@ Msgs(c) ==
      THEN {Mk("APP", 272, TRUE, 1, 1, RegApp, h, NodeCfg.realm, 0, FALSE, TRUE, FALSE, <<>>, <<>>, FALSE) : h \in sp} ELSE {}) \cup
   (IF "req2" \in Alpha /\ ~InFlight(c, 1, 2)   \* the same hop-by-hop identifier as req1 with another end-to-end identifier
      THEN {Mk("APP", 272, TRUE, 1, 2, RegApp, h, NodeCfg.realm, 0, FALSE, TRUE, FALSE, <<>>, <<>>, FALSE) : h \in sp} ELSE {}) \cup
+  (IF "reqf" \in Alpha    \* a request for a realm the node does not serve
+     THEN {Mk("APP", 272, TRUE, 2, 2, RegApp, h, "r9", 0, FALSE, TRUE, FALSE, <<>>, <<>>, FALSE) : h \in sp} ELSE {}) \cup
   (IF "ans" \in Alpha THEN {Mk("APP", 272, FALSE, 1, 1, RegApp, h, "", 2001, FALSE, TRUE, FALSE, <<>>, <<>>, FALSE) : h \in sp \cup {""}} ELSE {}) \cup
   (IF "sans" \in Alpha     \* answers (also late and repeated ones) to the requests the node sent on this connection
      THEN {Mk("APP", 272, FALSE, S.snd[j].hbh, S.snd[j].e2e, AppCfg[S.snd[j].a].id, h, "", 2001, FALSE, TRUE, FALSE, <<>>, <<>>, FALSE)
@@ -98,6 +100,10 @@ Acts ==
      THEN UNION {{[a |-> "frag", c |-> c, i |-> IF S.frag[c] THEN 2 ELSE 1, n |-> 2,
                    m |-> Mk("DW", 280, TRUE, 3, 3, 0, h, "", 0, FALSE, TRUE, FALSE, <<>>, <<>>, FALSE)] : h \in {PeerOrder[1]}}
                  : c \in {x \in ConnIds : Usable(x)}} ELSE {}) \cup
+  (IF "sendf" \in Alpha /\ Len(S.snd) < 1    \* an application tries to send to a foreign realm
+     THEN {[a |-> "send", k |-> Len(S.snd) + 1, app |-> ap, realm |-> "r9", timeout |-> 1, pick |-> "first"] : ap \in Apps} ELSE {}) \cup
+  (IF "send1" \in Alpha /\ Len(S.snd) < 2    \* one variant: own realm, timeout 1
+     THEN {[a |-> "send", k |-> Len(S.snd) + 1, app |-> ap, realm |-> NodeCfg.realm, timeout |-> 1, pick |-> "first"] : ap \in Apps} ELSE {}) \cup
   (IF "send" \in Alpha /\ Len(S.snd) < 2
      THEN {[a |-> "send", k |-> Len(S.snd) + 1, app |-> ap, realm |-> rl, timeout |-> to, pick |-> pk]
              : ap \in Apps, rl \in {NodeCfg.realm, "r9"}, to \in {1, 30}, pk \in {"first", "last"}} ELSE {}) \cup
